@@ -264,6 +264,12 @@ def mqtt_cases(rng, n_random=16):
         out.append(mq(kind, 2, 5, [(0, 30), (3, 3)]))
         out.append(mq(kind, 0, 4, [(0, 30)]))
         out.append(mq(kind, 3, 5, [(1, 30)]))
+        # the send window is exhausted when the keep-alive loop ticks (Receive Maximum 1, one unacknowledged
+        # QoS 1 publish): the loop must go on pinging
+        out.append(mq(kind, 2, 5, [(0, 33), (1, 31)]))
+        out.append(mq(kind, 1, 5, [(0, 33), (1, 31), (3, 32)]))
+        out.append(mq(kind, 2, 5, [(0, 33), (1, 31), (2, 32)]))
+        out.append(mq(kind, 2, 5, [(0, 30), (1, 31), (1, 32)]))
     for _ in range(n_random):
         kind = rng.choice([3, 5])
         ka = rng.choice([1, 2, 3, 4])
